@@ -409,9 +409,8 @@ Theorem C12_source_tie_schema :
   (forall s, gen_geometryTypeFromString s = WOk (spec_gtype s)) /\
   (forall n, (n <= 7)%N -> spec_gtype (gtype_name n) = n) /\
   (forall sd id, gen_getSpatialReferenceSystem sd id = WOk (spec_srs sd id)) /\
-  (forall sd n, forallb dflt_ok (info_of sd n) = true -> gen_getTableColumns sd n = WOk (spec_columns sd n)) /\
-  (forall src sd, (forall g, In g (sd_gc sd) -> forallb dflt_ok (info_of sd (fst (fst (fst g)))) = true) ->
-     gen_GetTableInfo src sd = WOk (spec_tables sd)) /\
+  (forall sd n, gen_getTableColumns sd n = WOk (spec_columns sd n)) /\
+  (forall src sd, gen_GetTableInfo src sd = WOk (spec_tables sd)) /\
   (forall t sd st fs,
      find_stable (t_name t) (sd_tables sd) = Some st -> map ti_name (st_info st) = map c_name (t_cols t) ->
      NoDup (map c_name (t_cols t)) -> has_col (t_gcol t) (t_cols t) = true ->
@@ -483,8 +482,7 @@ Proof.
 Qed.
 
 (** the error paths of the source side run too: a NULL geometry cell (the type assertion panics), a value of a type
-    the type switch does not list (go-sqlite3 hands over a bool for a BOOLEAN column: log.Fatalf), a column default
-    that is a non-integer text (rows.Scan into *int fails: log.Fatalf), a NULL srs description (read as ""), an
+    the type switch does not list (go-sqlite3 hands over a bool for a BOOLEAN column: log.Fatalf), a NULL srs description (read as ""), an
     srs id without a row (the zero value) *)
 Definition ex_source (cell : drv) (df : dfltv) : srcdb :=
   MkSrc [("t1", "geom", "polygon", 28992)]%string
@@ -508,9 +506,21 @@ Example C12_source_tie_schema_errors :
     WErr (Stop "interface conversion: interface {} is not []uint8") /\
   gen_ReadFeatures (MkSource ex_source_table) (ex_source (DBytes (Bytes 0 (Some (ex_geom 4)))) DfNull)
     (MkOChan [] true) = WErr (Stop "send on closed channel") /\
-  gen_getTableColumns (ex_source DNil DfText) "t1" =
-    WErr (Stop "sql: Scan error on column dflt_value: converting a string to int") /\
   gen_getSpatialReferenceSystem (ex_source DNil DfNull) 4326 = WOk srs_zero.
+Proof. repeat split; vm_compute; reflexivity. Qed.
+
+(** F17 (fixed, de070c1): a column default that is not an integer (DEFAULT 'x', 1.5, CURRENT_TIMESTAMP).  Scanned into the
+    *int of the pinned tree it ended the tool ([op_ScanTableInfo]: "converting a string to int", log.Fatalf); with the
+    *string of the repaired tree the table is described as any other.  The translator picks the scan operation from the
+    DECLARED type of column.dfltValue, so undoing the repair breaks [C12_source_tie_schema] (no hypothesis on defaults is
+    left in its statement). *)
+Example C12_regression_F17 :
+  gen_getTableColumns (ex_source DNil DfText) "t1" = WOk (t_cols ex_source_table) /\
+  gen_GetTableInfo (MkSource table_zero) (ex_source DNil DfText) = WOk [ex_source_table] /\
+  fst (op_ScanTableInfo (Some (2, "a", "TEXT", false, DfText, 0%N)%string) (0, "", "", false, None, 0%N)%string) =
+    (0, "", "", false, None, 0%N)%string /\
+  snd (op_ScanTableInfo (Some (2, "a", "TEXT", false, DfText, 0%N)%string) (0, "", "", false, None, 0%N)%string) =
+    Some (Stop "sql: Scan error on column dflt_value: converting a string to int").
 Proof. repeat split; vm_compute; reflexivity. Qed.
 
 (** why [int32_srs] is a hypothesis: an srs id beyond int32.  The model registers the table under that id; the code hands
